@@ -33,7 +33,7 @@ import (
 func init() {
 	Register(&Runner{Prop: "C17", Level: "exploration",
 		Rule:    "the real cql-proxy binary as a subprocess (plain build) per max-version setting, a fake backend behind it and two canary clients (plain and lz4) issuing a system SELECT and a forwarded tokenised query after every batch of hostile inputs; hostile client byte streams (valid frames with one header field mutated over its whole range, truncations at every header offset, lying body lengths up to 16 MiB, hostile strings in every string-typed field incl. keyspace names, deeply nested terms followed by a retryable error, hostile lz4/snappy bodies, wrong opcodes/directions, slow-loris, connections dropped mid-frame) and hostile backend replies (unknown/duplicate/negative streams, mismatched and request opcodes, short error bodies, garbage metadata, unsolicited and garbage EVENTs, other versions, random bytes, half frames, bad heartbeat replies, malformed system.local/peers rows at start-up, refresh and failover); oracle: process alive (no exit, no panic:/fatal error: on stderr) and both canaries answered correctly; distinct = (mutation kind, field, opcode, version); every case is non-trivial",
-		Shards:  shards(2, 5),
+		Shards:  shards(3, 6),
 		Timeout: timeouts(12*time.Minute, 90*time.Minute),
 		Subproc: true,
 		Run:     runC17})
@@ -78,7 +78,11 @@ func c17Start(c *Ctx, maxv string, tag string) (*c17Proc, error) {
 	bin := filepath.Join(c.Dir, "out", "bin", "cql-proxy")
 	// the address space of the proxy process is capped so that an allocation storm ends in the process's own
 	// "fatal error: runtime: out of memory" (which the oracle sees) instead of the kernel's OOM killer picking a victim
-	p.cmd = exec.Command("sh", "-c", fmt.Sprintf("ulimit -v %d; exec %s --contact-points %s --port %d --bind %s --max-protocol-version %s --heartbeat-interval 300ms --idle-timeout 3s --connect-timeout 2s",
+	fdLimit := ""
+	if strings.HasPrefix(tag, "fd") {
+		fdLimit = "ulimit -n " + strings.TrimPrefix(tag, "fd") + "; "
+	}
+	p.cmd = exec.Command("sh", "-c", fmt.Sprintf(fdLimit+"ulimit -v %d; exec %s --contact-points %s --port %d --bind %s --max-protocol-version %s --heartbeat-interval 300ms --idle-timeout 3s --connect-timeout 2s",
 		c17MemLimitKB, bin, cluster.ContactPoint(), cluster.Port, p.addr, maxv))
 	p.cmd.Stdout = ef
 	p.cmd.Stderr = ef
@@ -828,7 +832,7 @@ func runC17(c *Ctx) {
 	r := c.R
 	r.Assume("declared frame body lengths above 16 MiB are out of scope (resource question); lz4 decoding in dependencies' assembly is not instrumented")
 	r.Assume("a start-up that fails with an error exit because the backend's system tables are unusable is not a crash; a panic / fatal error is")
-	r.Require("client_inputs_sent", "backend_hostilities", "backend_hostile_replies_sent", "control_overrides", "canary_rounds_ok")
+	r.Require("client_inputs_sent", "backend_hostilities", "backend_hostile_replies_sent", "control_overrides", "canary_rounds_ok", "repeated_failing_requests_sent")
 	maxvs := []string{"v4", "DSEv2"}
 	if !c.Quick() {
 		maxvs = []string{"v3", "v4", "v5", "DSEv1", "DSEv2"}
@@ -1067,6 +1071,11 @@ func runC17(c *Ctx) {
 				}
 			}
 		}
+		// ------------------------------------------------------------ phase D: well-formed requests that fail, over and over
+		job++
+		if c.Mine(job) && mi == 0 {
+			c17RepeatedFailures(c, maxv)
+		}
 		// ------------------------------------------------------------ phase C: malformed system tables on the control connection
 		job++
 		if c.Mine(job) {
@@ -1175,4 +1184,81 @@ func minInt(a, b int) int {
 		return a
 	}
 	return b
+}
+
+// c17RepeatedFailures: a client sends nothing but well-formed requests that fail - USE of keyspaces that do not exist, with
+// and without compression and in several protocol versions (each combination makes the proxy open backend connections that
+// the backend then refuses to put into the keyspace) - several hundred times. The proxy runs with a limit of 256 open files,
+// as a daemon started by a service manager might: whatever the proxy allocates per failed request has to be given back, or
+// the well-behaved client stops being served.
+func c17RepeatedFailures(c *Ctx, maxv string) {
+	r := c.R
+	const fds = 256
+	c.Step("c17 repeated failing requests maxv=%s open-files-limit=%d", maxv, fds)
+	p, err := c17Start(c, maxv, fmt.Sprintf("fd%d", fds))
+	if err != nil {
+		r.Inconc("c17: " + err.Error())
+		return
+	}
+	defer p.stop()
+	openAtBackend := func() int {
+		n := 0
+		for _, h := range p.cluster.Hosts {
+			for _, x := range h.Conns() {
+				if !x.IsClosed() {
+					n++
+				}
+			}
+		}
+		return n
+	}
+	if why := p.canary(); why != "" {
+		r.Inconc("c17: canary fails before the phase: " + why)
+		return
+	}
+	base := openAtBackend()
+	n := c.Pick(300, 3000)
+	sent := 0
+	var suspects []string
+	for i := 0; i < n; i++ {
+		comp := []string{"", "lz4", "snappy"}[i%3]
+		if i%30 == 0 || sent == 0 {
+			// a fresh client connection now and then (the old one is dropped)
+		}
+		cl, err := rawcql.Dial(p.addr, primitive.ProtocolVersion4, nil)
+		if err != nil {
+			break // judged by the canary below
+		}
+		if cl.Handshake(comp, 5*time.Second) == nil {
+			for k := 0; k < 4; k++ {
+				q := fmt.Sprintf("USE nosuch_%d_%d", i, k)
+				if k == 3 {
+					q = fmt.Sprintf(`USE "NoSuch %d"`, i)
+				}
+				suspects = append(suspects, "repeated-failure/"+q)
+				if _, err := cl.Call(int16(k+1), &message.Query{Query: q, Options: &message.QueryOptions{Consistency: primitive.ConsistencyLevelOne}}, 10*time.Second); err != nil {
+					break
+				}
+				sent++
+				r.Eval(1)
+			}
+		}
+		cl.Close()
+		if !p.alive() {
+			break
+		}
+	}
+	r.Obs("repeated_failing_requests_sent", sent)
+	time.Sleep(200 * time.Millisecond)
+	after := openAtBackend()
+	r.ObsMax("max:backend_connections_open_after_repeated_failures", after)
+	r.NonTrivial(fmt.Sprintf("repeated-failures/%s", maxv))
+	if why := p.canary(); why != "" {
+		if len(suspects) > 6 {
+			suspects = suspects[len(suspects)-6:]
+		}
+		c17Crash(r, p, "client-input/repeated-failing-requests", suspects, fmt.Sprintf("%s (after %d failing USE statements; connections open at the backend: %d before, %d after; open-files limit of the proxy: %d)", why, sent, base, after, fds))
+		return
+	}
+	r.Obs("canary_rounds_ok", 1)
 }
